@@ -79,6 +79,73 @@ def opStore (args : List String) (impl : String) : Verdict :=
     | _, _, _, _, _, _ => bad "store"
   | _ => bad "store"
 
+/-- per 64-byte slot / 1024-byte chunk: `u` = still the initial filling, `t` = the true bytes, `x` = anything else -/
+def flagsOf (unit : Nat) (fill : UInt8) (cur truth : List UInt8) (truthFirst : Bool) : String :=
+  let n := (cur.length + unit - 1) / unit
+  let s := String.ofList ((List.range n).map fun i =>
+    let a := (cur.drop (i * unit)).take unit
+    let t := (truth.drop (i * unit)).take unit
+    let isU := a.all (· == fill)
+    if truthFirst then (if a == t then 't' else if isU then 'u' else 'x')
+    else (if isU then 'u' else if a == t then 't' else 'x'))
+  if s.isEmpty then "-" else s
+
+/-- `decrt k Kind flavour sink blob bs ranges sources stream fill`: `decode_ranges` with ONE failing read (the k-th
+read call on the stream). Model: the run on the stream cut just before the k-th item, the terminal replaced by the
+injected error (the not-found form for `UnexpectedEof`); a `sync` run retries `Interrupted` (std's `read_exact`), so
+that kind changes nothing there. Specification (C01, independent of the model): no slot of the outboard and no chunk
+of the target holds anything but its initial filling or the blob's true pair / bytes. -/
+def opDecrT (args : List String) (impl : String) : Verdict :=
+  match args with
+  | [k, fkind, fl, kind, b, bs, rs, sources, expr, fill] =>
+    match k.toNat?, flavour? fl, storeKind? kind, blob b, bs.toNat?, parseNatList rs, buildSources sources, fill.toNat? with
+    | some k, some fl, some kind, some d, some bs, some ranges, some srcs, some fill =>
+      match buildStream srcs expr with
+      | none => bad "stream"
+      | some stream =>
+        let root := hashSubtree hf 0 d true
+        let tree : Tree := ⟨d.length, bs⟩
+        let ob0 := List.replicate tree.outboardSize (UInt8.ofNat 0xAA)
+        let target0 := List.replicate d.length (UInt8.ofNat fill)
+        let sink : Sink HB := { ob := { kind, root, tree, data := ob0 }, target := target0 }
+        let plan := (tree.responseChunks (Ranges.truncate ranges tree.size)).getD []
+        let sizes := plan.map fun c => match c with | .parent .. => 64 | .leaf _ size _ _ => size
+        let offK := (sizes.take k).foldl (· + ·) 0
+        let cut := stream.take offK
+        -- sync: std's `read_exact` retries `Interrupted`, and makes no read call at all for a zero-length item
+        let retried := fl == .sync && (fkind == "Interrupted" || sizes.getD k 1 == 0)
+        -- the k-th read call happens iff the plan has such an item and the k items before it pass
+        let reached := plan.length > k && (decodeAll hf fl root tree ranges stream).items.length ≥ k && !retried
+        -- effects: those of the run on the stream cut before item k (for a zero-length item - the single leaf of the
+        -- empty blob - cutting cannot make the read fail: nothing has happened before it)
+        let zeroK := reached && sizes.getD k 1 == 0
+        let run := decodeRanges hf fl (if reached then cut else stream) ranges sink
+        let run := if zeroK then { run with sink := sink } else run
+        let term := if reached then
+            (if fkind != "UnexpectedEof" then s!"Io({fkind}*)" else
+              match plan[k]? with
+              | some (.parent node ..) => s!"ParentNotFound({node})"
+              | some (.leaf start ..) => s!"LeafNotFound({start})"
+              | none => "?")
+          else match run.terminal with
+            | .done => "Done" | .panic => "panic" | .err e => decErrStr e
+        let trueOb := if isPostKind kind then Spec.postOutboard hf d bs else Spec.preOutboard hf d bs
+        let obf := if kind == .empty then "-" else flagsOf 64 (UInt8.ofNat 0xAA) run.sink.ob.data trueOb false
+        let tf := flagsOf 1024 (UInt8.ofNat fill) run.sink.target d true
+        let m := s!"{term} {dig run.sink.target} {dig run.sink.ob.data} ob={obf} t={tf}"
+        let sf : Option String :=
+          match impl.splitOn " " with
+          | [iterm, _, _, iob, itf] =>
+            if iterm == "panic" then some "decode_ranges panicked"
+            else if iob.contains 'x' then some s!"a slot of the outboard holds a pair that is not the blob's: {iob}"
+            else if itf.contains 'x' then some s!"a chunk of the target holds bytes that are not the blob's: {itf}"
+            else if reached && iterm == "Done" then some "the failed read was swallowed"
+            else none
+          | _ => some "malformed (panic?)"
+        { model := m, specFail := sf, nontrivial := !stream.isEmpty && reached }
+    | _, _, _, _, _, _, _, _ => bad "decrt"
+  | _ => bad "decrt"
+
 def us (s : String) : String := s.replace " " "_"
 
 def hexNat (n : Nat) : String := String.ofList (Nat.toDigits 16 n)
